@@ -167,6 +167,8 @@ pub struct ScriptSpec {
     pub variable_outputs: usize,
     /// (asset index, amount)
     pub coin_outputs: Vec<(usize, Word)>,
+    /// predicate coin inputs: (code, data, asset index, amount, declared predicate gas)
+    pub predicates: Vec<(Vec<u8>, Vec<u8>, usize, Word, Word)>,
 }
 
 pub fn change_address(asset_index: usize) -> Address {
@@ -189,6 +191,11 @@ impl ScriptSpec {
         for (n, (k, amount, data)) in self.messages.iter().enumerate() {
             let nonce = Nonce::new(sha256(&[b"nonce", &salt.to_be_bytes(), &[n as u8]]));
             b.add_unsigned_message_input(w.keys[*k % w.keys.len()], Address::new([0x5e; 32]), nonce, *amount, data.clone());
+        }
+        for (n, (code, data, a, amount, gas)) in self.predicates.iter().enumerate() {
+            let utxo = UtxoId::new(Bytes32::new(sha256(&[b"putxo", &salt.to_be_bytes(), &[n as u8]])), n as u16);
+            let owner = Input::predicate_owner(code);
+            b.add_input(Input::coin_predicate(utxo, owner, *amount, w.assets[*a % w.assets.len()], TxPointer::default(), *gas, code.clone(), data.clone()));
         }
         for id in self.contracts.iter() {
             let idx = b.inputs().len() as u16;
